@@ -17,7 +17,7 @@ set_option maxHeartbeats 1000000
 
 /-- unfold generated code and specification down to field expressions -/
 macro "c05_unfold" : tactic =>
-  `(tactic| simp only [gen_simp, had, dkAct, iso, M2, apply6, apply4, apply3, ladd, lsmul, tens6, tens4, eigD, eigX, DK3, DK2,
+  `(tactic| simp only [gen_simp, had, dkAct, iso, M2, apply6, apply4, apply3, dot6, dot4, dot3, ladd, lsmul, tens6, tens4, eigD, eigX, DK3, DK2,
       M3.mandel3, M3.mandel2, M3.mandel1, M3.ofMandel, M3.sym, M3.diag, M3.mul_def, M3.mul, M3.one_def, M3.one,
       M3.add_def, M3.add, M3.sub_def, M3.sub, M3.smul_def, M3.smul, M3.transpose, M3.outer, M3.trace, M3.det,
       M3.frob, M3.mk.injEq, List.cons.injEq, and_true, true_and])
